@@ -215,6 +215,8 @@ class Engine:
             ft, ff = self.feasible(cz), self.feasible(z3.Not(cz))
             if ft != ff:
                 return ft
+            if not ft:
+                return True  # neither side is satisfiable: on this path the sequence has no position at all, the element is never evaluated
             raise Unsupported("control-flow on a symbolic value inside the element of a symbolic comprehension")
         if self.pos < len(self.trace):
             d = self.trace[self.pos]
@@ -363,7 +365,7 @@ class Engine:
             return self.snum(za / zb, "real")
         if isinstance(op, (ast.FloorDiv, ast.Mod)):
             if k != "int":
-                raise Unsupported("floor division / modulo on reals")
+                return self.real_floordiv_mod(op, za, zb)
             if not isinstance(b, int) or b <= 0:
                 if not self.spec_mode:
                     self.prove(self.site("div-positive"), zb > 0, "safety")
@@ -371,6 +373,21 @@ class Engine:
         if isinstance(op, ast.Pow):
             return self.power(a, b)
         raise Unsupported(f"binop {type(op).__name__}")
+
+    def real_floordiv_mod(self, op, za, zb):
+        """a // b and a % b on floats, over the reals (Python / numpy floor semantics): a = b*q + r with q an INTEGER and r between 0
+        (inclusive) and b (exclusive), i.e. r has the sign of the divisor.  q is a fresh integer constant defined by these bounds
+        (it exists and is unique for b != 0); b != 0 is a safety obligation."""
+        self.check_nonzero(zb)
+        key = ("real-divmod", z3.simplify(za).sexpr(), z3.simplify(zb).sexpr())
+        if key not in self.ghost:
+            q = z3.Int(fresh_name("quot"))
+            r = za - zb * z3.ToReal(q)
+            self.assume(z3.And(z3.Implies(zb > 0, z3.And(r >= 0, r < zb)), z3.Implies(zb < 0, z3.And(r <= 0, r > zb))))
+            self.assumptions.add("float // and % over the reals: a = b*q + r, q integer, 0 <= r < b (b > 0) or b < r <= 0 (b < 0); rounding of the quotient ignored")
+            self.ghost[key] = (q, r)
+        q, r = self.ghost[key]
+        return self.snum(z3.ToReal(q) if isinstance(op, ast.FloorDiv) else r, "real")
 
     def _conc_binop(self, op, a, b, ka, kb):
         realish = "real" in (ka, kb)
